@@ -13,6 +13,8 @@ import (
 	"os"
 	"strconv"
 	"strings"
+	"context"
+	"time"
 )
 
 type replayFile struct {
@@ -274,3 +276,55 @@ func Concrete(v uint64) uint64 { return v }
 // Pedersen/Poseidon outputs are never within 251 of each other, so H(a,b)+len (edge) cannot coincide
 // with another node's hash. Engine only (ideal-hash assumption); natively a no-op.
 func NodeHashesSeparated() {}
+
+// ---- engine model of context.WithCancel (natively the real context package is used) ----
+
+type modelCtx struct {
+	parent context.Context
+	done   chan struct{}
+	err    error
+	kids   []*modelCtx
+}
+
+func (c *modelCtx) Deadline() (time.Time, bool) { return time.Time{}, false }
+func (c *modelCtx) Done() <-chan struct{}        { return c.done }
+func (c *modelCtx) Value(k any) any              { return c.parent.Value(k) }
+func (c *modelCtx) Err() error {
+	if c.err != nil {
+		return c.err
+	}
+	return c.parent.Err()
+}
+
+func (c *modelCtx) cancel(err error) {
+	if c.err != nil {
+		return
+	}
+	if err == nil {
+		err = context.Canceled
+	}
+	c.err = err
+	close(c.done)
+	for _, k := range c.kids {
+		k.cancel(err)
+	}
+}
+
+// ModelWithCancel is what the engine executes in place of context.WithCancel: a context with its own
+// Done channel, cancelled by its cancel function or when its parent is cancelled.
+func ModelWithCancel(parent context.Context) (context.Context, context.CancelFunc) {
+	c := &modelCtx{parent: parent, done: make(chan struct{})}
+	if p, ok := parent.(*modelCtx); ok {
+		if p.err != nil {
+			c.cancel(p.err)
+		} else {
+			p.kids = append(p.kids, c)
+		}
+	} else if pd := parent.Done(); pd != nil {
+		go func() {
+			<-pd
+			c.cancel(parent.Err())
+		}()
+	}
+	return c, func() { c.cancel(context.Canceled) }
+}
